@@ -27,11 +27,16 @@ impl DuplicateFunctionId {
             .unwrap_or(0);
 
         util::find_duplicates(
-            funcs.filter(|func| func.id().value().parse::<u32>().is_ok()),
+            funcs
+                .clone()
+                .filter(|func| func.id().value().parse::<u32>().is_ok()),
             |func| func.id().value(),
             |duplicate, first| {
-                max_id += 1;
-                let free_id = max_id;
+                let free_id = util::next_free_id(&mut max_id, |id| {
+                    funcs
+                        .clone()
+                        .any(|func| func.id().value().parse() == Ok(id))
+                });
                 validate.add_error(Self {
                     schema_name: validate.schema_name().to_owned(),
                     duplicate: duplicate.id().clone(),
